@@ -6,8 +6,79 @@ PROP = 'C03'
 ASPECTS = {'lifecycle', 'callbacks', 'valid'}
 
 
+def respawn_scripts(rng, n):
+    out = []
+    for i in range(n):
+        r = rng.fork('rs%d' % i)
+        lines = ['maxthreads %d' % mgr.MAXTHREADS, 'threads 1', 'chunkcap %d' % r.pick([0, 2, 3]), 'reg 3', 'reg 0', 'reg 2', 'update']
+        cnt = r.range(2, 7)
+        for k in range(cnt):
+            lines.append('create 0 3 0' + (' 2' if r.chance(1, 2) else ''))
+            lines.append('set #%d 1 %d' % (k, 100 + k))
+        alive = list(range(cnt)); nxt = cnt
+        for _ in range(r.range(2, 6)):
+            if not alive:
+                break
+            c = r.below(3)
+            k = r.pick(alive)
+            if c == 0:
+                lines += ['respawn 1', 'destroynow 0 #%d' % k]; alive.remove(k); alive.append(nxt); nxt += 1
+            elif c == 1:
+                lines += ['respawn 1', 'remove 0 #%d 3' % k]; alive.append(nxt); nxt += 1
+            else:
+                lines.append('create 0 3 0'); alive.append(nxt); nxt += 1
+        lines.append('create 0 3 0')
+        out.append(('rs%d' % i, lines))
+    return out
+
+
+def respawn_run(scripts, work):
+    """a beforeRemove hook that re-enters the library and creates an entity in the archetype the removal is happening in (unlocked).
+    Not in the model: judged on the implementation's own output -- every live handle is listed exactly once by the archetypes, nothing
+    else is listed, the lifecycle brackets hold, nothing is alive after teardown"""
+    import os, emcmp
+    drv, err = vlib.build_driver('em_driver')
+    if err:
+        return None
+    io, _ = emcmp.run_driver(drv, emcmp.scripts_text(scripts), os.path.join(vlib.BUILD, 'work', work), timeout=600)
+    for name, blocks in emcmp.parse(io):
+        lc = mgrcheck.Lifecycle({2, 3, 5, 13})
+        for i, b in enumerate(blocks):
+            if b['crash']:
+                return (name, i, b['op'], 'implementation crashed: ' + b['crash'], dict(scripts)[name])
+            for el in b['tags'].get('E', []):
+                for ev in el.split()[1:]:
+                    m = lc.feed(ev)
+                    if m:
+                        return (name, i, b['op'], m + ' (event %s)' % ev, dict(scripts)[name])
+            v = (b['tags'].get('V') or [None])[0]
+            if v is None:
+                if 'teardown' in b['op'] and lc.leaked():
+                    return (name, i, b['op'], 'instances still alive after the world was destroyed: %s' % lc.leaked()[:4], dict(scripts)[name])
+                continue
+            bits = v.split()[1] if len(v.split()) > 1 else ''
+            live = set('#%d' % k for k, ch in enumerate(bits) if ch == '1')
+            listed = []
+            for l in b['tags'].get('A', []):
+                e = [x for x in l.split() if x.startswith('e=')][0][2:]
+                listed += [] if e == '-' else e.split(',')
+            if sorted(listed) != sorted(set(listed)) or set(listed) != live:
+                return (name, i, b['op'], 'archetype lists hold %s, the live entities are %s' % (sorted(listed), sorted(live)), dict(scripts)[name])
+    return None
+
+
 def run(tier, seed, replay=None):
     rng = vlib.Rng(seed)
+    rl = [l.rstrip('\n') for l in open(replay) if l.strip() and not l.startswith('#')] if replay else []
+    if not replay or any(l.startswith('respawn') for l in rl):
+        rs = [('replay', rl)] if replay else respawn_scripts(rng, 60 if tier == 'quick' else 1500)
+        bad = respawn_run(rs, PROP + '-rs')
+        if bad or replay:
+            cov = {'rule': 're-entrant beforeRemove hook, implementation only', 'evaluations': len(rs), 'distinct_nontrivial': len(rs)}
+            if not bad:
+                return {'violations': [], 'coverage': cov, 'level': 'proof'}
+            p = vlib.write_replay(PROP, 'failing_script.txt', '# %s\n# at op %d (%s) of script %s\n%s\n' % (bad[3], bad[1], bad[2], bad[0], '\n'.join(bad[4])))
+            return {'violations': [(p, '')], 'coverage': cov, 'level': 'proof'}
     n, maxops = (220, 60) if tier == 'quick' else (3000, 250)
     prof = mgr.profile(PROP)
     scripts = mgr.corpus(PROP) + [('g%d' % i, mgr.gen_script(rng.fork(PROP + '-%d' % i), maxops, prof)) for i in range(n)]
